@@ -55,6 +55,9 @@ REQUESTS = [
     ('fault_odd_detailstr', 'fail_odd', [('which', 'detailstr')]), ('fault_odd_nonecode', 'fail_odd', [('which', 'nonecode')]),
     ('fault_odd_nonemsg', 'fail_odd', [('which', 'nonemsg')]), ('fault_odd_bytesmsg', 'fail_odd', [('which', 'bytesmsg')]),
     ('fault_odd_surrogate', 'fail_odd', [('which', 'surrogate')]),
+    # the method redirects (the transport writes the answer itself)
+    ('redirect_301', 'redirect', [('code', 301), ('where', '')]), ('redirect_302', 'redirect', [('code', 302), ('where', '')]),
+    ('redirect_303', 'redirect', [('code', 303), ('where', 'http://example.com/caf\xe9')]), ('redirect_307', 'redirect', [('code', 307), ('where', '/relative')]),
     # response headers set by the method (HTTP headers when HttpRpc writes the answer)
     ('hdr_single', 'hdr', [('how', 'single')]), ('hdr_multi_text', 'hdr', [('how', 'multi_text')]), ('hdr_multi_int', 'hdr', [('how', 'multi_int')]),
     ('hdr_array_int', 'hdr', [('how', 'array_int')]), ('hdr_multi_dt', 'hdr', [('how', 'multi_dt')]), ('hdr_all', 'hdr', [('how', 'all')]),
